@@ -503,7 +503,7 @@ def run(F, rep):
     c12.rule_h1(F, rep, 'C02.H1', [s for s in c12.STATE if s[0] in ('Parser::ParserImpl', 'Printer::PrinterImpl')])
     import c16
     if not getattr(rep, 'nested', False):
-        c16.run(F, core.Borrowed(rep, only={'C16.P1'}))
+        core.borrow(F, rep, c16, only={'C16.P1'})
 
     # ------------------------------------------------------------------ A: flags gathered over loops
     from engines import rule_accumulators
